@@ -17,7 +17,7 @@ import concurrent.futures as cf
 
 import vlib
 
-PROPS = ['Rangers.Props.C13', 'Rangers.Props.C13Facts', 'Rangers.Props.C13Prime']
+PROPS = ['Rangers.Props.C13', 'Rangers.Props.C13Facts', 'Rangers.Props.C13Prime', 'Rangers.Props.C13G1']
 DRIVERS = ['C13']
 META = dict(
     level='proof',
@@ -29,10 +29,12 @@ META = dict(
     level_text='machine-checked proof for all group sizes < 2^46, all polynomials, all ids pairwise distinct mod r, all subsets, '
                'orders, map iteration orders and random draws; bn256 group laws and pairing bilinearity are hypotheses (sampled)',
     level_note='partial: ids congruent mod r break recovery (known finding, counterexample proved and replayed); '
-               'that bn256.G1/G2 are ZMod r-modules and Pair is bilinear is assumed',
+               'G1: the executable model is proved to be the Weierstrass group law given p prime, recovery at the point level '
+               'additionally needs #E(F_p)=r; G2 module laws and Pair bilinearity are assumed',
     trusted_base=['Lean 4 kernel', 'Mathlib (Lagrange, ZMod, Polynomial, LucasPrimality)', 'gen/cmd/c13facts', 'harness/cmd/c13',
                   'bn256 field/curve/pairing implementation', 'math/big', 'Go map iteration and crypto/rand (modelled as parameters)'],
-    assumptions=['bn256.G1 and G2 with Add/ScalarMult are modules over Z_r and Pair is bilinear (sampled every run, not proved)',
+    assumptions=['bn256.P is prime and every point of E(F_p) is killed by r (#E(F_p)=r): the only assumptions left for G1 (sampled)',
+                 'bn256.G2 with Add/ScalarMult is a module over Z_r and Pair is bilinear (sampled every run, not proved)',
                  'member ids are pairwise distinct modulo the group order r (violated inputs are the recorded known finding)',
                  'hash-to-curve is a function of the message only (not modelled)',
                  'dealing and recovery see the same group size'],
@@ -114,14 +116,24 @@ def gen(ctx):
     return dict(ok=True, facts=facts, changed=changed)
 
 
+def _twin_hook_present(ctx):
+    return os.path.exists(os.path.join(ctx.repo, 'src', 'consensus', 'logical', 'verif_c13_signgen.go'))
+
+
 def correspond(ctx):
     old = vlib.run_driver
+    old_build = vlib.go_build
     vlib.run_driver = _run_driver_parallel
+    if _twin_hook_present(ctx):
+        # drive logical.groupSignGenerator as well (harness/cmd/c13/lgen_hook.go)
+        vlib.go_build = lambda c, moddir, pkg, outname, tags='verif', race=False: old_build(
+            c, moddir, pkg, outname, tags=(tags + ' c13lgen') if outname == 'c13' else tags, race=race)
     try:
         c = vlib.correspond(ctx, 'c13', 'C13', [], canon=canon, timeout=1500,
                             nontrivial=lambda o, x: True)
     finally:
         vlib.run_driver = old
+        vlib.go_build = old_build
     c['name'] = 'c13'
     return [c]
 
@@ -130,7 +142,8 @@ def search(ctx, hints):
     res = dict(evaluations=0, distinct_nontrivial=0, violations=[], samples=[])
     binp = os.path.join(vlib.HARNESS, 'bin', 'c13')
     if not os.path.exists(binp):
-        binp, log = vlib.go_build(ctx, vlib.HARNESS, './cmd/c13', 'c13')
+        binp, log = vlib.go_build(ctx, vlib.HARNESS, './cmd/c13', 'c13',
+                                  tags='verif c13lgen' if _twin_hook_present(ctx) else 'verif')
         if not binp:
             res['error'] = 'searcher build failed: ' + log[-1500:]
             return res
